@@ -10,7 +10,8 @@ LEVEL = "proof"
 #   "fixed" = the flag is written on every retrieval (after the fix: commit lands in /repo).
 # It only selects the model variant for the *structural* comparison (DIVERGE); property violations
 # (SPECFAIL) are always judged against the requested meaning, i.e. the fixed semantics.
-IMPL_FLAG = "stale"
+import os
+IMPL_FLAG = os.environ.get("VERIF_C18_IMPL_FLAG", "stale")   # lead: change the default to "fixed" when the fix: commit lands
 
 LEVEL_TEXT = ("Lean 4 theorems, for all inputs, about a hand-written executable model of SepPair/SepMatrix/"
               "TGLF-SEPCO (transform equivariance for all 8 symmetries, full D4 composition table with plain "
@@ -29,14 +30,17 @@ LEVEL_NOTE = ("The theorems are about the Lean model (AdaptaVerif/Model/Sep.lean
               "compares within the writer's precision). printf's %.Nf is modelled as exact round-half-even. "
               "Graph::writeTglf node/route text (6 significant digits) and buildGraphFromTglf's node/link "
               "sections are not modelled, only validated on outputs. removeNodes, setCorrespondingConstraints, "
-              "SepMatrix copies sharing SepPairs, SepCo/ProjSeq are out of scope. The history theorem "
+              "SepMatrix copies sharing SepPairs, SepCo/ProjSeq are out of scope; Graph::rotate90* is exercised on "
+              "square nodes only (it deliberately does not exchange node widths/heights). The history theorem "
               "flip_storage_history holds for the repaired getSepPair (flag written on every retrieval); for the "
               "code as found it is false (flip_storage_history_witness) and the correspondence reports it.")
 TECHNIQUE = "Lean 4 theorems on a hand-written model + exhaustive/random correspondence harness (ASan+UBSan build)"
-RULE = ("exhaustive table cases (seed independent) + random op histories with every pair addressed in one "
-        "orientation (hist-oriented) or in mixed orientation (flip-history) + random graph TGLF round trips "
-        "(dyadic values: exact; 'fine' values: at the writer's precision). A case is non-trivial if it "
-        "generated at least one vpsc constraint (table: always; tglf: or a routed edge).")
+RULE = ("48 exhaustive table cases (seed independent: dir x relation x gap type; rows gap {-7,-0,+0,7} x extra {0,1.5} "
+        "x base pair {fresh, pre-seeded}; 8 transforms, 64 compositions) + random classes: pair-random (arbitrary "
+        "SepPair fields, tglfPrecision 0..6), hist-oriented / flip-history (op histories on one SepMatrix with every "
+        "pair addressed in one / in mixed orientation), graph-rotate (Graph::rotate90cw/acw/180 on square nodes), "
+        "tglf / tglf-fine (Graph::writeTglf -> buildGraphFromTglf; dyadic values exact, fine values at the writer's "
+        "precision). A case is non-trivial if it generated at least one vpsc constraint (tglf: or a routed edge).")
 TRUSTED_BASE = ["Lean 4.33 kernel", "axioms: propext, Classical.choice, Quot.sound",
                 "hand-written model Model/Sep.lean (tied by correspondence only)",
                 "harness/c18.cpp + Driver/C18.lean + hex-float import",
